@@ -23,6 +23,7 @@ def import_nasim():
     """Import nasim from REPO's *current working tree* and assert that is what we got."""
     if REPO not in sys.path:
         sys.path.insert(0, REPO)
+    from . import seams  # noqa: F401  (global numpy.random wrappers must exist before nasim binds any of them)
     import nasim  # noqa
     got = os.path.realpath(os.path.dirname(os.path.dirname(nasim.__file__)))
     want = os.path.realpath(REPO)
